@@ -78,6 +78,17 @@ def gen_cases(ctx):
         if mode == "exp": mk("exp", n, t)
         elif mode == "exp_factor": mk("exp_factor", n, t, factor=coef_for_exp(rng, "imag"))
         else: mk("neg_i_dt", n, dict(t, coef=[float2bits(0.8), float2bits(0.0)]), dt=float2bits(0.7))
+    # inputs that are ALMOST eigenvectors of the string (the other eigencomponent is 1e-8 of the norm, which an imaginary-time step
+    # of a few units amplifies to order one), and inputs of tiny norm: the exponential is linear, nothing is "close enough"
+    for n in (1, 2, 3):
+        for e in (3e-8, 1e-7):
+            dim = 1 << n
+            v = [0.0] * (2 * dim); v[0] = math.sqrt(1 - e * e); v[2 * 1] = e      # |0..0> plus a little |0..01>: near an eigenvector of Z_0
+            for re in (-12.0, 9.0):
+                mk("exp", n, {"ops": [[0, "Z"]], "coef": [float2bits(re), float2bits(rng.uniform(-1, 1))]}, v=[float2bits(x) for x in v])
+        for _ in range(3):
+            t = rand_string(rng, n, allow_empty=False); t["coef"] = coef_for_exp(rng, rng.choice(["generic", "real"]))
+            mk(rng.choice(["exp", "exp_factor"]), n, t, v=rand_vec(rng, n, "tiny"), factor=coef_for_exp(rng, "real"))
     # out-of-range factors
     for n in (1, 2, 3):
         t = rand_string(rng, n, allow_empty=False); t["ops"][0][0] = n + rng.randrange(0, 3); t["coef"] = coef_for_exp(rng, "generic")
